@@ -19,7 +19,7 @@
 EXTENDS Encoding, TLC, Json
 
 CONSTANTS K,        \* max number of slots changed w.r.t. a base
-          Kinds,    \* subset of {"view", "op", "commit"}
+          Kinds,    \* subset of {"view", "op", "commit", "blob", "tree"}
           Emit      \* TRUE: print <<"REPLAY", json>> for every state
 
 VARIABLE st         \* [kind |-> .., s |-> slot assignment]
